@@ -15,6 +15,8 @@ def run(P, R, L):
              "WAL and inserts into the memtable, runs with the mutex held, and is not called inside that section")
     K.ord8_publication(P, R, L)
     K.ord8b_sequence_range(P, R, L)
+    from . import round12 as _r12
+    _r12.ord8b_span_not_narrowed(P, R, L)
     R.clause("ORD-8b", "sequence range of the group (every acknowledged write is applied exactly once under its own sequence numbers)")
     R.clause("OWN-2", "set_prev_sequence_number is called only from apply_changes and recovery, at held sites; the field is "
              "written only inside VersionSet")
